@@ -265,39 +265,40 @@ def check_model(rep, drv, gen, rng, m, text, c, with_jax, with_c):
                     fail(f"jax init_{kind}_values() = {arr.tolist()}, declared {dict(zip(names, want))}", backend="jax")
     # ---- C
     if failing is None and with_c:
-        try:
-            ccode = cback.gen_c(c.ode, schemes=["explicit_euler"])
-        except Exception as ex:  # noqa: BLE001
-            rep.count("c_generation_raises:" + type(ex).__name__)
-            ccode = None
-        if ccode is not None:
-            cm = cback.CModule(ccode)
+        for cru in (False, True):      # the C module with and without removal of unused variables: same tables, same counts
             try:
-                if not cm.compile_ok:
-                    rep.count("c_does_not_compile")
-                else:
-                    rep.count("c_models")
-                    for kind, names in (("state", lay["sorted_states"]), ("parameter", lay["params"]), ("monitor", lay["order"])):
-                        got = [cm.index(f"{kind}_index", x) for x in names]
-                        if got != list(range(len(names))):
-                            fail(f"C {kind}_index: {dict(zip(names, got))}", backend="C")
-                        for foreign in ["__nope__"] + foreign_names(names):
-                            if foreign not in names and cm.index(f"{kind}_index", foreign) != -1:
-                                fail(f"C {kind}_index accepts the unknown name {foreign!r}", backend="C")
-                    for cname, want in (("NUM_STATES", len(lay["sorted_states"])), ("NUM_PARAMS", len(lay["params"])),
-                                        ("NUM_MONITORED", len(lay["order"]))):
-                        if cm.constant(cname) != want:
-                            fail(f"C {cname} = {cm.constant(cname)}, expected {want}", backend="C")
-                    for kind, names, vals in (("state", lay["sorted_states"], stv), ("parameter", lay["params"], pav)):
-                        arr = cm.call_init(f"init_{kind}_values", len(names))
-                        want = [value_of(drv, vals[x]) for x in names]
-                        for i, (a_, w) in enumerate(zip(arr, want)):
-                            if not close(float(a_), w, abs(w)):
-                                # C integer arithmetic in declared values belongs to C02; only slots are judged here
-                                if all(close(float(b_), w2, abs(w2)) for b_, w2 in zip(sorted(arr), sorted(want))):
-                                    fail(f"C init_{kind}_values puts values in the wrong slots: {arr.tolist()} vs {dict(zip(names, want))}", backend="C")
-            finally:
-                cm.close()
+                ccode = cback.gen_c(c.ode, schemes=["explicit_euler"], remove_unused=cru)
+            except Exception as ex:  # noqa: BLE001
+                rep.count("c_generation_raises:" + type(ex).__name__)
+                ccode = None
+            if ccode is not None:
+                cm = cback.CModule(ccode)
+                try:
+                    if not cm.compile_ok:
+                        rep.count("c_does_not_compile")
+                    else:
+                        rep.count("c_models")
+                        for kind, names in (("state", lay["sorted_states"]), ("parameter", lay["params"]), ("monitor", lay["order"])):
+                            got = [cm.index(f"{kind}_index", x) for x in names]
+                            if got != list(range(len(names))):
+                                fail(f"C {kind}_index: {dict(zip(names, got))}", backend="C", remove_unused=cru)
+                            for foreign in ["__nope__"] + foreign_names(names):
+                                if foreign not in names and cm.index(f"{kind}_index", foreign) != -1:
+                                    fail(f"C {kind}_index accepts the unknown name {foreign!r}", backend="C", remove_unused=cru)
+                        for cname, want in (("NUM_STATES", len(lay["sorted_states"])), ("NUM_PARAMS", len(lay["params"])),
+                                            ("NUM_MONITORED", len(lay["order"]))):
+                            if cm.constant(cname) != want:
+                                fail(f"C {cname} = {cm.constant(cname)}, expected {want}", backend="C", remove_unused=cru)
+                        for kind, names, vals in (("state", lay["sorted_states"], stv), ("parameter", lay["params"], pav)):
+                            arr = cm.call_init(f"init_{kind}_values", len(names))
+                            want = [value_of(drv, vals[x]) for x in names]
+                            for i, (a_, w) in enumerate(zip(arr, want)):
+                                if not close(float(a_), w, abs(w)):
+                                    # C integer arithmetic in declared values belongs to C02; only slots are judged here
+                                    if all(close(float(b_), w2, abs(w2)) for b_, w2 in zip(sorted(arr), sorted(want))):
+                                        fail(f"C init_{kind}_values puts values in the wrong slots: {arr.tolist()} vs {dict(zip(names, want))}", backend="C", remove_unused=cru)
+                finally:
+                    cm.close()
     family.settle(rep, issue, failing, structural)
 
 
